@@ -108,8 +108,9 @@ def build(case: Case):
     return m, b, tokens, acts
 
 
-def set_bar(m, toks: dict, ts=None):
-    """move the market to another bar: new indices and prices for the same tokens (what Actuator does once per row)"""
+def set_bar(m, toks: dict, ts=None, refresh=False):
+    """move the market to another bar: new indices and prices for the same tokens (what Actuator does once per row); `refresh`: no row is
+    handed over (`MarketStatus(ts, None)`, the Actuator's second call of a bar) — the market looks it up in its own data frame"""
     import pandas as pd
     from demeter import MarketStatus
     names = list(toks)
@@ -119,8 +120,13 @@ def set_bar(m, toks: dict, ts=None):
         t = toks[n]
         data += [D(0), D(0), D(0), D(t["li"]), D(t["bi"])]
     st = MarketStatus(ts or TS)
-    st.data = pd.Series(index=mi, data=data)
+    if refresh:
+        m._data = pd.DataFrame([data], index=[ts or TS], columns=mi, dtype=object)
+    else:
+        st.data = pd.Series(index=mi, data=data)
     m.set_market_status(data=st, price=pd.Series({n: D(toks[n]["p"]) for n in names}))
+    if refresh:
+        m._data = None      # the one-row frame was only the source of that lookup (with a frame, `is_open` would depend on its index)
 
 
 def row_of(m, name):
